@@ -40,6 +40,14 @@ def judgeChaos (inp obs : Json) : Except String Verdict := do
              cover := cover0 ++ ["crashed"], nontrivial := true }
   let conns ← (← getArr obs "conns").mapM getConnLog
   let blocked ← getStrList obs "blocked"
+  if mode == "stuck-write" then
+    -- Close racing Writes that are blocked on an undrained trunk: only "everything returns"
+    let done := (← getStrList obs "final").any fun s => (s.splitOn " writes completed").length > 1
+    return { agree := true, spec := blocked.isEmpty,
+             why := if blocked.isEmpty then "" else s!"calls that did not return: {blocked.take 4}",
+             sig := if blocked.isEmpty then "" else "C11:close-vs-stuck-write",
+             cover := cover0 ++ (if done then ["stuck-write:some-completed-first"] else ["stuck-write:all-stuck"]),
+             nontrivial := true }
   let final ← getStrList obs "final"
   let tab := hexBytes (← getStr obs "trunk_ab")
   let tba := hexBytes (← getStr obs "trunk_ba")
